@@ -15,7 +15,9 @@ Decided (see DESIGN.md section 3, C01):
          building its message cannot itself raise (every % / .format gets the number of values it takes -- a tuple
          operand of run-time length, followed through make_chain's return, is spread over the conversions);
   R01.c  exact set arithmetic of chain_argspec / make_chain (truth tables over symbolic atoms);
-  R01.d  per-phase availability sets and pairing of function lists with provides lists;
+  R01.d  per-phase availability sets and pairing of function lists with provides lists; the generated request core hands each
+         chain exactly the names make_chain derived as that chain's signature (one NAME=NAME join over the whole argument set,
+         nothing written beside it), and takes exactly the names its caller computed for it;
   R01.e  all consumers of a signature enumerate the same parameters; parameter-kind table; the signature of a bound method lacks
          ``self`` whatever the state of its instance (the drop in get_fb is guarded by what f *is*, not by the truth value of
          ``f.__self__``);
@@ -267,6 +269,7 @@ def run(rep):
     g(chain.check_chain_argspec, rep, 'R01.c')
     g(chain.check_make_chain, rep, 'R01.c', 'R01.f')
     g(chain.check_phase_sets, rep, 'R01.d', rule_pair='R01.d', rule_order=None, rule_core_env='R01.d')
+    g(chain.check_core_call_names, rep, 'R01.d')
     g(chain.check_accessors, rep, 'R01.e')
     g(chain.check_generated_level, rep, 'R01.f', 'R01.f', 'R01.f', 'R01.f', 'R01.f')
     if not rep.gaps:
